@@ -142,6 +142,30 @@ def run(ctx):
     a10.element_reset_rule(ctx, "C09.R11", "noodles_vcf::io::reader::record_buf::samples::parse_samples", 3, "values",
                            "noodles_vcf::variant::record_buf::samples::Samples", "Samples.values (one row per sample)")
 
+    ctx.rule("C09.R12", "decode after split: the output of percent_decode is never split on a delimiter (the writer encodes the delimiter inside an "
+                        "element as %2C and a lone `.` as %2E exactly so that splitting comes first)")
+    n12 = 0
+    bad12 = 0
+    for k12, f12 in sorted(fb.fns.items()):
+        if not f12.blocks or not k12.startswith(("noodles_vcf::", "<noodles_vcf::")):
+            continue
+        if not any(re.search(r"percent_decode$", c.get("f") or "") for _b, c in f12.calls()):
+            continue
+        n12 += 1
+        ctx.saw_fn(f12)
+        is_dec = lambda s_: bool(re.search(r"percent_decode$", s_))
+        for b12, c12 in f12.calls():
+            if re.search(r"(str>::split|str>::split_once|str>::splitn|str>::rsplit|str>::split_terminator|::split_at|memchr::memchr\w*)$", c12.get("f") or "") and c12["args"]:
+                if R.derives_from_call(f12, c12["args"][0], is_dec):
+                    bad12 += 1
+                    ctx.violation("C09.R12", "C09.R12/split-after-decode/" + f12.root,
+                                  "%s splits the OUTPUT of percent_decode: an element that contains the encoded delimiter (`1%%2C2`) is cut in two "
+                                  "and an encoded lone `.` (`%%2E`) becomes the missing marker — the eager value differs from what was written and "
+                                  "from the lazy view" % f12.root, f12.loc(b12))
+    if not bad12:
+        ctx.ok("C09.R12", "%d functions call percent_decode" % n12, "none of them splits a value that derives from its result")
+    ctx.floor("C09.R12", "functions that call percent_decode", n12, 6)
+
     ctx.rule("C09.R6", "A10 append-buffer discipline: VCF readers reset their line buffer before every appended line")
     a10.discipline_rule(ctx, "C09.R6", r"^<?noodles_vcf::", 8)
 
